@@ -165,6 +165,7 @@ class Session:
         self.quiet = quiet
         self.t0 = time.time()
         self.mutants = None
+        self.broken = []
 
     # ---- facts -----------------------------------------------------------
     def facts(self, config=None):
@@ -184,7 +185,9 @@ class Session:
         """Anchor / instance-count guard: a rule that matches too little is analysis-broken."""
         self.counters['%s: %s' % (rule, what)] = count
         if count < minimum:
-            raise AnalysisBroken('%s: %s: found %d, confirmed minimum is %d (anchor vanished or logic moved; '
+            # deferred: a real violation found by the same run is reported first (exit 1); only a run
+            # without violations is turned into analysis-broken (exit 2) by a failed instance minimum
+            self.broken.append('%s: %s: found %d, confirmed minimum is %d (anchor vanished or logic moved; '
                                  'the rule would pass vacuously)' % (rule, what, count, minimum))
 
     def count(self, name, n):
